@@ -36,12 +36,15 @@ JudgeObs(r, o, tag) ==
 \* itself must be invariant (same acceptance, same bits), and every observed
 \* assembly must be what the specification prescribes for ITS rendering.
 Renderings ==
-    LET r0 == Assemble(E.progs[1]) IN
-    IF r0.t = "skip" THEN Skip(r0.why)
+    LET rs == [k \in 1..Len(E.progs) |-> Assemble(E.progs[k])]
+        r0 == rs[1] IN
+    \* a group is judged when the specification decides every member of it (which of several reasons for
+    \* leaving a program unjudged or rejecting it is found first may depend on the order of the rules)
+    IF \E k \in 1..Len(E.progs) : rs[k].t = "skip"
+    THEN Skip(rs[CHOOSE k \in 1..Len(E.progs) : rs[k].t = "skip"].why)
     ELSE \A k \in 1..Len(E.progs) :
-            LET rk == IF k = 1 THEN r0 ELSE Assemble(E.progs[k]) IN
-            /\ ((rk.t = r0.t /\ rk.out = r0.out) \/ Fail("spec-not-invariant"))
-            /\ JudgeObs(rk, E.obs[k], IF k = 1 THEN "" ELSE ":rendering")
+            /\ ((rs[k].t = r0.t /\ rs[k].out = r0.out) \/ Fail("spec-not-invariant"))
+            /\ JudgeObs(rs[k], E.obs[k], IF k = 1 THEN "" ELSE ":rendering")
 
 \* C02: the claimed final state of a successful assembly is certified
 Cert ==
